@@ -899,3 +899,34 @@ func replaceIdent(text, id, with string) string {
 	}
 	return b.String()
 }
+
+// recordedAsParam: name was a parameter (and not a captured variable) of fn when its contract was written, and is no
+// longer the name of one of its parameters.
+func (p *Prog) recordedAsParam(fn *ssa.Function, name string) bool {
+	if fn == nil {
+		return false
+	}
+	p.loadSignatures()
+	rs, ok := p.sigs[p.funcKey(fn)]
+	if !ok {
+		return false
+	}
+	was := false
+	for _, n := range rs.Params {
+		was = was || n == name
+	}
+	for _, n := range rs.FreeVars {
+		if n == name {
+			return false
+		}
+	}
+	if !was {
+		return false
+	}
+	for _, prm := range fn.Params {
+		if prm.Name() == name {
+			return false
+		}
+	}
+	return true
+}
